@@ -195,9 +195,56 @@ def skeleton_flags(max_leaves=3, max_conds=2, depth=2):
                     yield _build(shape, iter(leaves), iter(conds))
 
 
+def _count_ifs(s):
+    if s == "A" or s is None:
+        return 0
+    if s[0] == "B":
+        return sum(_count_ifs(x) for x in s[1:])
+    if s[0] == "I":
+        return (1 if s[2] is None else 0) + _count_ifs(s[1]) + _count_ifs(s[2])
+    return _count_ifs(s[1])
+
+
+def _build_loops(shape, leaves, conds, loops):
+    """Like _build, but an if-without-else becomes a while loop where ``loops`` says so."""
+    if shape == "A":
+        return next(leaves)
+    if shape[0] == "B":
+        return ir.Block([_build_loops(x, leaves, conds, loops) for x in shape[1:]])
+    c = next(conds)
+    if shape[0] == "I":
+        if shape[2] is None:
+            as_loop = next(loops)
+            a = _build_loops(shape[1], leaves, conds, loops)
+            return ir.Loop(c, a) if as_loop else ir.Branch(c, a, ir.Block([]))
+        a = _build_loops(shape[1], leaves, conds, loops)
+        b = _build_loops(shape[2], leaves, conds, loops)
+        return ir.Branch(c, a, b)
+    return ir.Branch(c, ir.Block([]), _build_loops(shape[1], leaves, conds, loops))
+
+
+def skeleton_returns(max_leaves=3, max_conds=2, depth=2):
+    """Early exits: leaves are tracking assignments or `return k`, an if-without-else may be a while loop (its
+    condition is an input, so it runs zero times or until its body returns - paths that spin are outside the
+    unwinding bound)."""
+    for n in range(1, max_leaves + 1):
+        for shape in _shapes(n, depth):
+            c = _nconds(shape)
+            if c == 0 or c > max_conds:
+                continue
+            n_if = _count_ifs(shape)
+            for kinds in itertools.product("tR", repeat=n):
+                if "R" not in kinds:
+                    continue
+                for loops in itertools.product([False, True], repeat=n_if):
+                    leaves = [_track(k + 1) if kd == "t" else ir.Return(ir.IntegerLiteral(k + 1)) for k, kd in enumerate(kinds)]
+                    yield _build_loops(shape, iter(leaves), iter([_input_cond(k) for k in range(c)]), iter(loops))
+
+
 def skeletons():
     yield from skeleton_structures()
     yield from skeleton_flags()
+    yield from skeleton_returns()
 
 
 INIT_VARS = {"x": "int", "y": "int", "u": "float", "p": "bool"}
